@@ -6,7 +6,7 @@ Driver for C18 (package cache).  Requests:
   `seq <sizeLimit> <entrySize> <op>;<op>;...`      sequential public calls (`SV.Cache.runSeq`)
       op = `n` NewCache | `g<c>.<k>.<v>.<sz>` Get, loader returns (v, sz) | `e<c>.<k>` GetWithError, loader fails |
            `p<c>.<k>` Get, loader panics | `x<c>` Release | `r` Rotate | `c` Cleanup | `z` CleanEmptyGenerations |
-           `b` ReleaseBuckets
+           `b` ReleaseBuckets | `t` / `T` one maintenance tick without / with garbage collection
   `trace <sizeLimit> <entrySize> <label>;...`       one label per critical section (`SV.Cache.run`)
       label = `n` | `G<t>.<c>.<k>` | `W<t>` | `F<t>.<v>.<sz>` | `E<t>` | `P<t>` | `x<c>` | `r` | `cb` | `ck` | `z` | `b` |
               `C` (one whole Cleanup call: `cb` followed by one `ck` per bucket)
@@ -97,13 +97,21 @@ def parseLabel (s : String) : Option Label :=
   | 'x' :: rest => (String.ofList rest).toNat?.map .release
   | _ => none
 
-/-- sequential run that remembers `getSize` after every op -/
-def goSeq (cfg : Cfg) : St → List Op → Nat → List String → String
+/-- sequential run that remembers `getSize` after every op; `Sum.inr gc` is one maintenance tick (`tickOps gc`),
+of which only the resulting size is printed (the real tick returns nothing) -/
+def goSeq (cfg : Cfg) : St → List (Op ⊕ Bool) → Nat → List String → String
   | s, [], _, acc => s!"ok {fmtList id acc.reverse ";"} | {fmtState s}"
-  | s, o :: os, i, acc =>
+  | s, .inl o :: os, i, acc =>
     match seqOp cfg s o with
     | none => s!"err step {i}"
     | some (s1, out) => goSeq cfg s1 os (i + 1) (s!"{fmtOuts out}@{getSize s1}" :: acc)
+  | s, .inr gc :: os, i, acc =>
+    match runSeq cfg s (tickOps gc) with
+    | none => s!"err step {i}"
+    | some (s1, _) => goSeq cfg s1 os (i + 1) (s!"{if gc then "T" else "t"}@{getSize s1}" :: acc)
+
+def parseSeqItem (s : String) : Option (Op ⊕ Bool) :=
+  if s = "t" then some (.inr false) else if s = "T" then some (.inr true) else (parseOp s).map .inl
 
 def goTrace (cfg : Cfg) : St → List (Option Label) → Nat → List String → String
   | s, [], _, acc => s!"ok {fmtList id acc.reverse ";"} | {fmtState s}"
@@ -122,7 +130,7 @@ def flags? (s : String) : Option (List Bool) :=
 def step (line : String) : String :=
   match fields line with
   | ["seq", lim, es, ops] =>
-    match lim.toNat?, es.toNat?, (splitList ops ";").mapM parseOp with
+    match lim.toNat?, es.toNat?, (splitList ops ";").mapM parseSeqItem with
     | some lim, some es, some ops => goSeq ⟨lim, es⟩ init ops 0 []
     | _, _, _ => "bad-op"
   | ["trace", lim, es, ls] =>
